@@ -608,10 +608,11 @@ Proof.
     + apply shut_swap_avail_inv; auto.
   - (* LShutJoin *)
     destruct (s_sd s) as [| |[|t r] nz|[|t r] nz|] eqn:Hsd; try discriminate; cbv zeta in Hst;
-      (destruct (thr_idle (thr_of s t)); [|discriminate]). idtac.
+      (destruct (thr_idle (thr_of s t)); [|discriminate]); injection Hst as E1 E2; subst s' ev;
+      eapply shut_join_inv; eauto.
   - (* LShutEnd *)
-    destruct (s_sd s) as [| | |[|t r] [|]|] eqn:Hsd; try discriminate. injection Hst as Hb.
-    destruct (shut_end s) as [s1 e1] eqn:He. injection Hb as <- <-. eapply shut_end_inv; eauto.
+    destruct (s_sd s) as [| | |[|t r] [|]|] eqn:Hsd; try discriminate.
+    destruct (shut_end s) as [s1 e1] eqn:He. injection Hst as <- <-. eapply shut_end_inv; eauto.
 Qed.
 
 Inductive reach (n : nat) : st -> list event -> Prop :=
@@ -620,3 +621,64 @@ Inductive reach (n : nat) : st -> list event -> Prop :=
 
 Theorem reach_inv : forall n s tr, reach n s tr -> Inv s.
 Proof. intros n s tr H. induction H; [apply init_inv|eapply step_inv; eauto]. Qed.
+
+(* ---------------------------------------------------------------- no MASSERT of ThreadPool.cpp fires *)
+
+Lemma send_pend_inv : forall s c m, SInv s -> tget c (s_reg s) = Some false -> SInv (set_pend s (tappend c m (s_pend s))).
+Proof.
+  intros s c m I Hr. dI I. constructor; sst; auto.
+  - unfold tappend. now apply tkeys_tset_nodup.
+  - intros c' q. unfold tappend. rewrite tget_tset. destruct (Nat.eqb_spec c' c) as [->|]; [|apply i_pend_ok0].
+    intros E; injection E as <-. split; auto. destruct (qof (s_pend s) c); discriminate.
+Qed.
+
+Lemma notify_bad : forall s c, s_bad (notify s c) = s_bad s.
+Proof. intros s c. unfold notify. destruct (tget c (s_unreg s)) as [[|]|]; reflexivity. Qed.
+
+Theorem step_bad : forall s l s' ev, Inv s -> s_bad s = false -> step s l = Some (s', ev) -> s_bad s' = false.
+Proof.
+  intros s l s' ev [I [U W]] Hb Hst. destruct l as [c|c m|t|t|t|c|c|c| | | | ]; cbn [step] in Hst.
+  - destruct (in_unreg s c); [discriminate|]. destruct (lmem c (s_cl s)); injection Hst as <- <-; auto.
+  - destruct (in_unreg s c); [discriminate|]. destruct (lmem c (s_cl s)); [|injection Hst as <- <-; auto].
+    destruct (pool_send s c m) as [s1 r] eqn:Hs. injection Hst as <- <-. unfold pool_send in Hs.
+    destruct (tget c (s_reg s)) as [[|]|] eqn:Hr; [injection Hs as <- <-; auto| |injection Hs as <- <-; auto].
+    destruct (_ =? 1); injection Hs as <- <-; auto. apply dispatch_bad; auto. now apply send_pend_inv.
+  - destruct (tget t (s_thr s)) as [h|]; [|discriminate].
+    destruct (th_client h); [|discriminate]. destruct (th_queue h); [discriminate|].
+    destruct (th_running h); [discriminate|]. injection Hst as <- <-. auto.
+  - destruct (tget t (s_thr s)) as [h|]; [|discriminate].
+    destruct (th_client h); [|discriminate]. destruct (th_queue h); [discriminate|].
+    destruct (th_running h); [|discriminate]. injection Hst as <- <-. auto.
+  - destruct (tget t (s_thr s)) as [h|] eqn:Ht; [|discriminate].
+    destruct (th_client h) as [c|] eqn:Hc; [|discriminate]. destruct (th_queue h) as [|m q] eqn:Hq; [|discriminate].
+    destruct (th_running h) eqn:Hr; [discriminate|].
+    destruct (finished (upd_thr s t (mkThr None [] false (th_exited h))) t c) as [s1 e1] eqn:Hfin.
+    injection Hst as <- <-. unfold finished in Hfin.
+    change (s_shut (upd_thr s t (mkThr None [] false (th_exited h)))) with (s_shut s) in Hfin.
+    destruct (s_shut s) eqn:Hsh; [injection Hfin as <- <-; auto|].
+    pose proof (fin_core_inv s t h c I Hsh Ht Hc Hq Hr) as I2.
+    destruct (fin_facts s t h c I Hsh Ht Hc) as [Hregc [Hpn [Hm Hex]]].
+    assert (Hb2 : s_bad (fin_core (upd_thr s t (mkThr None [] false (th_exited h))) t c) = false).
+    { unfold fin_core; sst; rewrite Hregc; sst.
+      destruct (tget c (s_defer s)) as [[|d0 dr]|] eqn:Hd; sst; rewrite ?Hm; sst; rewrite ?Hb; auto.
+      unfold qof. rewrite Hpn. reflexivity. }
+    pose proof (dispatch_bad _ I2 Hb2) as Hb3.
+    unfold fin_notify in Hfin. destruct (outstanding _ c); [injection Hfin as <- <-; auto|].
+    destruct (lmem c _); injection Hfin as <- <-; auto. sst. now rewrite notify_bad.
+  - destruct (in_unreg s c); [discriminate|]. destruct (lmem c (s_cl s)); [|discriminate].
+    unfold unreg_begin in Hst. destruct (outstanding s c); injection Hst as <- <-; auto.
+  - destruct (tget c (s_unreg s)) as [[[|]|]|]; try discriminate. injection Hst as <- <-. auto.
+  - destruct (tget c (s_unreg s)) as [[|]|]; try discriminate. injection Hst as <- <-. auto.
+  - destruct (s_sd s); try discriminate. injection Hst as <- <-. auto.
+  - destruct (s_sd s) as [| |[|t r] nz|[|t r] [|]|]; try discriminate; injection Hst as <- <-; auto.
+  - destruct (s_sd s) as [| |[|t r] nz|[|t r] nz|]; try discriminate; cbv zeta in Hst;
+      (destruct (thr_idle (thr_of s t)); [|discriminate]); injection Hst as <- <-; auto.
+  - destruct (s_sd s) as [| | |[|t r] [|]|]; try discriminate.
+    destruct (shut_end s) as [s1 e1] eqn:He. injection Hst as <- <-.
+    destruct (shut_end_fields s) as [_ [_ [_ [_ [_ [_ [_ [_ [_ [_ [_ [A _]]]]]]]]]]]]. rewrite He in A. cbn [fst] in A. congruence.
+Qed.
+
+Theorem reach_bad : forall n s tr, reach n s tr -> s_bad s = false.
+Proof.
+  intros n s tr H. induction H; [reflexivity|]. eapply step_bad; eauto. eapply reach_inv; eauto.
+Qed.
